@@ -390,16 +390,14 @@ def produceWrappedM (m : MP) : Option Value × MP :=
   else
     let m := m.chk (decide (0 < m.p.args.length))          -- parser->args[0]; parser->argcount-- (size_t)
     let m := m.chk (decide (0 < m.p.states.length))        -- parser->states[0].argn--
-    match h : m.p.args.reverse with
+    match m.p.args.reverse with
     | [] => (none, m)
-    | v :: rest =>
+    | v :: _ =>
       (some v,
-       { p := { m.p with args := rest.reverse, pending := m.p.pending - 1, states := decRootArgn m.p.states },
+       { p := { m.p with args := m.p.args.dropLast, pending := m.p.pending - 1, states := decRootArgn m.p.states },
          k := m.k, sgen := m.sgen, fault := m.fault,
          capok := ⟨m.capok.1, by rw [decRootArgn_len]; exact m.capok.2.1,
-           Nat.le_trans (by
-             have : m.p.args.length = rest.length + 1 := by rw [← List.length_reverse, h]; rfl
-             simp [this]) m.capok.2.2⟩ })
+           Nat.le_trans (by rw [List.length_dropLast]; exact Nat.sub_le _ _) m.capok.2.2⟩ })
 
 /-- `janet_parser_produce` -/
 def produceM (m : MP) : Option Value × MP :=
